@@ -44,6 +44,29 @@ Theorem C12_roundtrip_poll_response : forall offer success nat relay reason,
   else if beq reason NO_MATCH then Ok ([], NAT_UNKNOWN, []) else Err.
 Proof. exact roundtrip_poll_response. Qed.
 
+(* The failure reason of a proxy poll response is a field of the message: the Go decoder hands it to the caller as the
+   text of the error it returns (together with the NAT type and relay URL).  decode_poll_response_reason is
+   decode_poll_response with that error class split off; the reason comes back byte for byte. *)
+Theorem C12_poll_response_reason_refines : forall v,
+  decode_poll_response v = match decode_poll_response_reason v with PROk r => Ok r | _ => Err end.
+Proof. exact poll_response_reason_refines. Qed.
+
+Theorem C12_roundtrip_poll_response_reason : forall offer nat relay reason,
+  reason <> [] -> reason <> CLIENT_MATCH -> reason <> NO_MATCH ->
+  decode_poll_response_reason (encode_poll_response offer false nat relay reason) = PRReason reason NAT_UNKNOWN [].
+Proof. exact roundtrip_poll_response_reason. Qed.
+
+Theorem C12_poll_response_reason_is_status : forall v s n u,
+  decode_poll_response_reason v = PRReason s n u ->
+  s = fstr v "Status" /\ n = nat_default (fstr v "NAT") /\ u = fstr v "RelayURL" /\
+  s <> [] /\ s <> CLIENT_MATCH /\ s <> NO_MATCH.
+Proof. exact poll_response_reason_is_status. Qed.
+
+Example C12_poll_response_reason_example :
+  decode_poll_response_reason (encode_poll_response [] false [] [] (bs "broker is 100% busy")) =
+  PRReason (bs "broker is 100% busy") NAT_UNKNOWN [].
+Proof. vm_compute. reflexivity. Qed.
+
 Theorem C12_roundtrip_answer_request : forall answer sid,
   answer <> [] -> sid <> [] ->
   decode_answer_request (encode_answer_request answer sid) = Ok (answer, sid).
